@@ -48,9 +48,10 @@ package ledger
 // FAULT INJECTION.  For each occurrence i of db.commit.pre on the tracker DB and on the
 // block DB (of the "cp/every/blockFirst" run; thorough: of every run) a run in which that
 // commit fails once with a non-retryable error. The live ledger must keep serving correct
-// answers for the whole history, and every crash point from the failed commit on must satisfy
-// the oracle (labels: only "equal to the reference label of that round", since a failed
-// first-stage record legitimately loses that catchpoint).
+// answers for the whole history, and every crash point from the failed commit on (quick tier:
+// the 16 crash points from the failed commit on, i.e. until the retry has been absorbed;
+// thorough: all) must satisfy the oracle (labels: only "equal to the reference label of that
+// round", since a failed first-stage record legitimately loses that catchpoint).
 //
 // NOT COVERED: torn pages / partial fsync inside SQLite (a snapshot is the file content at
 // a transaction boundary of the process; SQLite's own WAL recovery is exercised for real);
@@ -1160,6 +1161,7 @@ func TestVerif_C09(t *testing.T) {
 		{Cfg: cfgNo, Sched: "end", Policy: "trackerFirst"},
 	}
 	faultBases := ve.Pick(1, len(base)) // quick: faults on the first run only
+	faultWindow := ve.Pick(16, 0)       // quick: crash points checked after the failed commit (0 = all)
 
 	refs := map[string]*c09Refs{}
 	var stats c09VerifyStats
@@ -1221,6 +1223,9 @@ func TestVerif_C09(t *testing.T) {
 			}
 			if spec.FaultDB != "" && p.K < res.InjectedAt {
 				continue // identical to the prefix of the run without the fault
+			}
+			if spec.FaultDB != "" && faultWindow > 0 && p.K >= res.InjectedAt+faultWindow {
+				continue // quick tier: the window in which the failed commit is retried and absorbed
 			}
 			todo = append(todo, p)
 		}
@@ -1338,8 +1343,8 @@ faults:
 	}
 	run.Set("points_per_run", pc)
 	n := run.Finish(ve.Coverage{
-		Rule: fmt.Sprintf("every db.commit.pre/post of block DB and tracker DB in %d runs (10-block history; configs cp/nocp x flush schedules x 2 writer orders) + one injected commit failure at every commit occurrence of %d base run(s); every snapshot reopened with OpenLedger and checked against the delta-fold reference, then continued to the end of the history",
-			len(base), faultBases),
+		Rule: fmt.Sprintf("every db.commit.pre/post of block DB and tracker DB in %d runs (10-block history; configs cp/nocp x flush schedules x 2 writer orders) + one injected commit failure at every commit occurrence of %d base run(s) (crash points checked after the failure: %s); every snapshot reopened with OpenLedger and checked against the delta-fold reference, then continued to the end of the history",
+			len(base), faultBases, map[bool]string{true: "all", false: fmt.Sprintf("the next %d", faultWindow)}[faultWindow == 0]),
 		Exhaustive: exhaustive,
 	})
 	if n > 0 {
